@@ -620,7 +620,12 @@ def check_zero_globals(chk, it):
             ('f32', M.buffer([('byte', 0x43), ('f32', 0), ('byte', 0x0B)]), 0), ('f64', M.buffer([('byte', 0x44), ('f64', 0), ('byte', 0x0B)]), 0),
             ('i32', M.i32_const(7), 7), ('f64', M.buffer([('byte', 0x44), ('f64', 0x8000000000000000), ('byte', 0x0B)]), 0x8000000000000000)]
     mk = lambda: M.build(it, types=[([], [])], functions=[0], globals_=[(t, True, init) for t, init, _ in zero], exports=[])
-    fns = split_functions(inits_text(it, mk))
+    old_ue = getattr(it, 'union_endian', None)
+    it.union_endian = 'little'      # WasmValue members are read back through other members (type punning) with concrete contents here
+    try:
+        fns = split_functions(inits_text(it, mk))
+    finally:
+        it.union_endian = old_ue
     chk.require('modInitGlobals' in fns, 'InitGlobals is not emitted for a module with %d defined globals' % len(zero))
     body = fns['modInitGlobals']
     asg = dict()
